@@ -316,7 +316,7 @@ static void spec_wbl(octet r[], size_t count, const u32 key[8])
 		o_copy(s, r, 16);
 		for (j = 1; j + 1 < n; ++j) o_xor(s, s, r + 16 * j, 16);
 		E(t, s, key);
-		for (i = 0; i < 8; ++i) t[i] ^= (octet)(round >> (8 * i));
+		for (i = 0; i < 8; ++i) t[i] ^= (octet)((u64)round >> (8 * i));
 		o_xor(r + count - 16, r + count - 16, t, 16);
 		for (i = 0; i + 16 < count; ++i) r[i] = r[i + 16];
 		o_copy(r + count - 16, s, 16);
@@ -359,3 +359,34 @@ void h_sde(void)
 }
 #endif
 #endif
+
+/* ---- length-block arithmetic of belt-hash / belt-mac / DWP / CHE: block <- block + 8 * count on a 128-bit (64-bit)
+   little-endian counter, for every block value and every count (added after seeded C01/m5: lost carry between words). ---- */
+void h_addbitsize(void)
+{
+	V_IN_ARR(u32, b, 4);
+	V_IN(size_t, count);
+	u32 w[4];
+	word h[W_OF_B(64)], h0[W_OF_B(64)];
+	u64 lo, hi, hx = 0, hy = 0;
+	unsigned i;
+	/* 128-bit sum in two 64-bit halves: 8 * count = (count >> 61) * 2^64 + (count << 3 mod 2^64) */
+	lo = ((u64)b[1] << 32 | b[0]) + ((u64)count << 3);
+	hi = ((u64)b[3] << 32 | b[2]) + ((u64)count >> 61) + (lo < ((u64)count << 3));
+	w[0] = (u32)lo, w[1] = (u32)(lo >> 32), w[2] = (u32)hi, w[3] = (u32)(hi >> 32);
+	/* half block: the words of h0 are taken from b */
+	for (i = 0; i < W_OF_B(64); ++i)
+#if (B_PER_W == 64)
+		h0[i] = h[i] = (word)b[0] | (word)b[1] << 32;
+#else
+		h0[i] = h[i] = b[i];
+#endif
+	for (i = 0; i < W_OF_B(64); ++i) hx |= (u64)h0[i] << (B_PER_W % 64 * i);
+	hx += (u64)count << 3;
+	beltBlockAddBitSizeU32(b, count);
+	V_ASSERT(b[0] == w[0] && b[1] == w[1] && b[2] == w[2] && b[3] == w[3], "beltBlockAddBitSizeU32: block + 8 * count modulo 2^128, every block and count");
+	beltHalfBlockAddBitSizeW(h, count);
+	for (i = 0; i < W_OF_B(64); ++i) hy |= (u64)h[i] << (B_PER_W % 64 * i);
+	V_ASSERT(hx == hy, "beltHalfBlockAddBitSizeW: half block + 8 * count modulo 2^64, every half block and count");
+	V_CANARY("addbitsize");
+}
